@@ -376,11 +376,17 @@ class ExcelOpxWrapperNoData(ExcelOpxWrapper):
 
     class OpxRange(_OpxRange):
         def __new__(cls, range_data):
-            values = tuple(
-                tuple(ExcelOpxWrapperNoData.excel_value(*cell)
-                      for cell in zip(row_f, row_v))
-                for row_f, row_v in zip(range_data.formula, range_data.values)
-            )
+            if isinstance(range_data.formula, tuple):
+                values = tuple(
+                    tuple(ExcelOpxWrapperNoData.excel_value(*cell)
+                          for cell in zip(row_f, row_v))
+                    for row_f, row_v in zip(
+                        range_data.formula, range_data.values)
+                )
+            else:
+                # a CSE array formula, or a range that starts in one:
+                # the cells of such a range are built one by one
+                values = range_data.values
             return ExcelWrapper.RangeData.__new__(
                 cls, range_data.address, range_data.formula, values)
 
